@@ -79,10 +79,63 @@ class Deployment:
         self.joker = self.make_joker(self.pool, self.rng)
         self.history = []
         self.helpers = {}
+        self.current_op = None
+        self.inmem_batches = []
+        self._restore = []
+        self.install_inmem_interposer()
+        self.batch_tasks_calls = []
+        self.install_batch_tasks_interposer()
+
+    def install_batch_tasks_interposer(self):
+        """Observe every partition the package really asks for (C16)."""
+        import thejoker.multiproc_helpers as mh
+
+        orig = getattr(mh, "batch_tasks", None)
+        if orig is None or getattr(orig, "_verif_wrapped", False):
+            return
+        dep = self
+
+        def batch_tasks(n_tasks, n_batches, arr=None, args=None, start_idx=0):
+            out = orig(n_tasks, n_batches, arr=arr, args=args, start_idx=start_idx)
+            try:
+                dep.batch_tasks_calls.append(
+                    {"op": dep.current_op, "n_tasks": int(n_tasks), "n_batches": int(n_batches), "arr": None if arr is None else np.array(arr), "start_idx": int(start_idx),
+                     "n_args": 0 if args is None else len(list(args)), "tasks": [(t[0] if isinstance(t[0], tuple) else np.array(t[0]), t[1], len(t)) for t in out]}
+                )
+            except Exception:  # noqa: BLE001
+                pass
+            return out
+
+        batch_tasks._verif_wrapped = True
+        mh.batch_tasks = batch_tasks
+        self._restore.append((mh, "batch_tasks", orig))
+
+    def install_inmem_interposer(self):
+        """Observe the in-memory evaluation point (which rows the likelihood sees).  If a refactor
+        renames it the observation is lost (reach probe drops to zero), never turned into a violation."""
+        import thejoker.likelihood_helpers as lh
+
+        orig = getattr(lh, "marginal_ln_likelihood_inmem", None)
+        if orig is None or getattr(orig, "_verif_wrapped", False):
+            return
+        dep = self
+
+        def marginal_ln_likelihood_inmem(joker_helper, prior_samples_batch):
+            try:
+                dep.inmem_batches.append((dep.current_op, np.array(prior_samples_batch, dtype=np.float64)))
+                dep.log.add("inmem-eval", "marginal_ln_likelihood_inmem", {"n": len(prior_samples_batch)})
+            except Exception:  # noqa: BLE001
+                pass
+            return orig(joker_helper, prior_samples_batch)
+
+        marginal_ln_likelihood_inmem._verif_wrapped = True
+        marginal_ln_likelihood_inmem.__wrapped__ = orig
+        lh.marginal_ln_likelihood_inmem = marginal_ln_likelihood_inmem
+        self._restore.append((lh, "marginal_ln_likelihood_inmem", orig))
 
     def make_pool(self, pspec, faults=None):
         if pspec.get("kind") == "serial":
-            p = make_observed_serial_pool(self.log)
+            p = make_observed_serial_pool(self.log, self.record)
         else:
             pool_faults = [dict(f) for f in (faults or []) if f.get("kind") in ("map", "worker", "dill")]
             p = simpool.SimPool(pspec.get("size", 2), self.decider, self.log, self.record, pool_faults)
@@ -95,6 +148,9 @@ class Deployment:
         return tj.TheJoker(self.world.prior, pool=pool, rng=rng, tempfile_path=self.world.tmpdir)
 
     def close(self):
+        for mod, name, orig in self._restore:
+            setattr(mod, name, orig)
+        self._restore = []
         tempfile.tempdir = self._old_tempdir
         shutil.rmtree(self.workdir, ignore_errors=True)
 
@@ -119,6 +175,7 @@ class Deployment:
         joker = joker or self.joker_for(op)
         w = self.world
         kind = op["op"]
+        self.current_op = op.get("id")
         rec = {"op": op, "id": op.get("id"), "draw_lo": len(self.record.draws)}
         pool = joker.pool
         if hasattr(pool, "begin_op"):
@@ -163,6 +220,17 @@ class Deployment:
             if kind == "helper_new":
                 self.helpers[name] = tj.TheJoker(w.prior)._make_joker_helper(w.datasets[op.get("data", 0)])
                 self.helpers[name + ":data"] = op.get("data", 0)
+            elif kind == "helper_batch_tasks":
+                from thejoker.utils import batch_tasks
+
+                arr = None
+                if op.get("with_arr"):
+                    arr = np.arange(1000, 1000 + op["start_idx"] + op["n_tasks"]) * 3
+                args = op.get("args")
+                res_tasks = batch_tasks(op["n_tasks"], op["n_batches"], arr=arr, args=args, start_idx=op.get("start_idx", 0))
+                rec["direct"] = {"arr": arr, "tasks": [(t[0] if isinstance(t[0], tuple) else np.array(t[0]), t[1], list(t[2:])) for t in res_tasks]}
+                self.log.add("direct-batch-tasks", "", None, [[list(t[0]) if isinstance(t[0], tuple) else np.array(t[0]), t[1]] for t in res_tasks])
+                out = np.array([len(res_tasks)])
             elif kind == "helper_roundtrip":
                 h = self.helpers[name]
                 if op.get("kind") == "dill":
@@ -201,7 +269,7 @@ class Deployment:
         return self.record.draws[rec["draw_lo"] : rec["draw_hi"]]
 
 
-def make_observed_serial_pool(log=None):
+def make_observed_serial_pool(log=None, rng_record=None):
     """The REAL schwimmbad.SerialPool, observed: tasks are recorded, then the real map runs."""
     import schwimmbad
 
@@ -232,6 +300,13 @@ def make_observed_serial_pool(log=None):
             self.map_idx += 1
             if self.log is not None:
                 self.log.add("map-begin", call["func"], {"key": key, "n": len(tasks), "tasks": [(d["kind"], d["rows"], d["start"], d["fp"]) for d in decoded]}, "serialpool")
+            if rng_record is not None:
+                tasks = [
+                    (tuple(t[:-1]) + (recgen.RecordingGenerator(t[-1].bit_generator, rng_record, "child:%s.%d" % (key, i)),))
+                    if isinstance(t[-1], np.random.Generator)
+                    else t
+                    for i, t in enumerate(tasks)
+                ]
             return super().map(func, tasks, callback=callback)
 
     return ObservedSerialPool()
